@@ -39,7 +39,7 @@ Padded(kind)   == kind \in {"erf_square", "raised_cosine"}
 FlatLike(kind) == kind \in {"flat", "boxcar_kernel"}
 
 \* a length of time in units of one sample period: num / den samples (den = 1: aligned; den = 2 with
-\* odd num: half a sample off)
+\* odd num: half a sample off; den = 4: a quarter off)
 Q(num, den) == [num |-> num, den |-> den]
 Aligned(q)  == q.num % q.den = 0
 Ceil(q)     == (q.num + q.den - 1) \div q.den
